@@ -274,7 +274,10 @@ impl EditState {
     /// This function will return an error if .
     pub fn make_layer_transparent(&mut self) -> EngineResult<()> {
         let _undo = self.begin_atomic_undo(fl!(crate::LANGUAGE_LOADER, "undo-make_transparent"));
-        let layer_idx = self.current_layer;
+        // the index of the layer that get_cur_layer_mut() hands out (the stored index can be stale, e.g. after a crop removed layers)
+        let Ok(layer_idx) = self.get_current_layer() else {
+            return Err(super::EditorError::CurrentLayerInvalid.into());
+        };
         if let Some(layer) = self.get_cur_layer_mut() {
             let area = crate::Rectangle {
                 start: Position::new(0, 0),
